@@ -432,6 +432,9 @@ func loopPos(h *ssa.BasicBlock) token.Pos {
 	best := token.Pos(1 << 60)
 	scan := func(b *ssa.BasicBlock) {
 		for _, ins := range b.Instrs {
+			if _, isPhi := ins.(*ssa.Phi); isPhi {
+				continue // a phi carries the position of the variable's declaration, not of the loop
+			}
 			if p := ins.Pos(); p.IsValid() && p < best {
 				best = p
 			}
